@@ -2,6 +2,9 @@
 //! one `key=value` per line.  A panic in the real code is caught and printed as `panic=<msg>`.
 use std::panic;
 
+mod bc;
+mod pos;
+
 fn hex_to_bytes(s: &str) -> Vec<u8> {
     (0..s.len() / 2).map(|i| u8::from_str_radix(&s[2 * i..2 * i + 2], 16).unwrap()).collect()
 }
@@ -52,6 +55,8 @@ fn main() {
     let r = panic::catch_unwind(move || match cmd.as_str() {
         "symbol" => symbol(&rest),
         "demangle" => demangle(&rest),
+        "position" => pos::position(&rest),
+        "bc" => bc::bc(&rest),
         _ => println!("unknown_command=1"),
     });
     if let Err(e) = r {
